@@ -191,4 +191,94 @@ Section Utf8Text.
     injection E1 as Ea Et1. injection E2 as Eb Et2. subst a b. cbn [length] in L1, L2.
     assert (Hl : length t1 = length t2) by lia. rewrite <- Et1, <- Et2, Hl. reflexivity.
   Qed.
+
+  Lemma slice_firstn (l : list N) q n : slice l q (q + n) = firstn n (skipn q l).
+  Proof. unfold slice. replace (q + n - q)%nat with n by lia. reflexivity. Qed.
+
+  Lemma skipn_head {A} (X : list A) : forall k b r, skipn k X = b :: r -> nth_error X k = Some b.
+  Proof.
+    induction X as [|x X IH]; intros [|k] b r E; cbn in *; try discriminate.
+    - inversion E; reflexivity.
+    - eapply IH; eauto.
+  Qed.
+
+  Lemma slice_skip (l : list N) a b q : (a <= b)%nat -> (b <= q)%nat -> slice l b q = skipn (b - a) (slice l a q).
+  Proof.
+    intros H1 H2. unfold slice. rewrite skipn_firstn_comm. rewrite OptBytes.skipn_plus.
+    replace (b - a + a)%nat with b by lia. replace (q - a - (b - a))%nat with (q - b)%nat by lia. reflexivity.
+  Qed.
+
+  (* two well-formed characters that end at the same place are the same *)
+  Lemma suffix_unique a b q c1 c2 : wf_char c1 = true -> wf_char c2 = true -> (q <= length h)%nat ->
+    (a <= q)%nat -> (b <= q)%nat -> slice h a q = c1 -> slice h b q = c2 -> c1 = c2.
+  Proof.
+    intros H1 H2 Hq Ha Hb E1 E2.
+    assert (L1 : length c1 = (q - a)%nat) by (rewrite <- E1; apply slice_len; assumption).
+    assert (L2 : length c2 = (q - b)%nat) by (rewrite <- E2; apply slice_len; assumption).
+    pose proof (wf_len c1 H1). pose proof (wf_len c2 H2).
+    destruct (Nat.lt_trichotomy a b) as [Hlt|[->|Hlt]].
+    - (* c2 is a proper suffix of c1: its first byte is a continuation byte of c1 *)
+      exfalso. rewrite (slice_skip h a b q) in E2 by lia. rewrite E1 in E2.
+      destruct (wf_head c2 H2) as (x & t & Ec2 & _ & Hx). rewrite Ec2 in E2.
+      pose proof (skipn_head c1 (b - a) x t E2) as Hn.
+      destruct (wf_tail_cont c1 (b - a) H1 ltac:(lia) ltac:(lia)) as (y & Hy & Hc). rewrite Hn in Hy. inversion Hy; subst. congruence.
+    - congruence.
+    - exfalso. rewrite (slice_skip h b a q) in E1 by lia. rewrite E2 in E1.
+      destruct (wf_head c1 H1) as (x & t & Ec1 & _ & Hx). rewrite Ec1 in E1.
+      pose proof (skipn_head c2 (a - b) x t E1) as Hn.
+      destruct (wf_tail_cont c2 (a - b) H2 ltac:(lia) ltac:(lia)) as (y & Hy & Hc). rewrite Hn in Hy. inversion Hy; subst. congruence.
+  Qed.
+
+  Lemma mb_fwd_at q c0 : okp q -> is_scalar c0 = true ->
+    match_bytes true h q (utf8_encode c0) =
+    match u8_next_right h q with
+    | Ok (Some (c', q')) => Ok (if c0 =? c' then Some q' else None) | Ok None => Ok None | Err e => Err e end.
+  Proof.
+    intros Hq Hs. destruct (enc_wf c0 Hs) as [HwE HdE]. pose proof (wf_len _ HwE) as HlE.
+    rewrite (mb_fwd_unfold h q _ (bnd_len cs q Hq)).
+    destruct (view_fwd cs q Hw Hq) as [Hend Hn _ _|c b0 t Ec Hc Hq' Hn _ _ _ _ Hsl]; rewrite Hn.
+    - replace (length h - q <? length (utf8_encode c0))%nat with true by (symmetry; apply Nat.ltb_lt; lia). reflexivity.
+    - pose proof (bnd_len cs _ Hq') as Hle. destruct (N.eqb_spec c0 (dec c)) as [->|Hne].
+      + destruct (wf_facts c Hc) as (_ & Henc & _). rewrite Henc.
+        replace (length h - q <? length c)%nat with false by (symmetry; apply Nat.ltb_ge; lia).
+        rewrite Hsl, bytes_eqb_refl. reflexivity.
+      + destruct (Nat.ltb_spec (length h - q) (length (utf8_encode c0))) as [Hr|Hr]; [reflexivity|].
+        destruct (bytes_eqb (utf8_encode c0) (slice h q (q + length (utf8_encode c0)))) eqn:Eb; [|reflexivity].
+        exfalso. apply bytes_eqb_eq in Eb. rewrite slice_firstn in Eb, Hsl.
+        pose proof (prefix_unique (skipn q h) (utf8_encode c0) c HwE Hc (eq_sym Eb) Hsl) as Heq.
+        apply Hne. rewrite <- HdE, Heq. reflexivity.
+  Qed.
+
+  Lemma mb_bwd_at q c0 : okp q -> is_scalar c0 = true ->
+    match_bytes false h q (utf8_encode c0) =
+    match u8_next_left h q with
+    | Ok (Some (c', q')) => Ok (if c0 =? c' then Some q' else None) | Ok None => Ok None | Err e => Err e end.
+  Proof.
+    intros Hq Hs. destruct (enc_wf c0 Hs) as [HwE HdE]. pose proof (wf_len _ HwE) as HlE.
+    rewrite (mb_bwd_unfold h q _). pose proof (bnd_len cs q Hq) as Hql.
+    destruct (view_bwd cs q Hw Hq) as [Hst Hn _ _|c z q0 Hc Eq Hq0 _ Hn _ _ _ _ Hsl]; rewrite Hn.
+    - subst q. replace (0 <? length (utf8_encode c0))%nat with true by (symmetry; apply Nat.ltb_lt; lia). reflexivity.
+    - destruct (N.eqb_spec c0 (dec c)) as [->|Hne].
+      + destruct (wf_facts c Hc) as (_ & Henc & _). rewrite Henc.
+        replace (q <? length c)%nat with false by (symmetry; apply Nat.ltb_ge; lia).
+        replace (q - length c)%nat with q0 by lia. rewrite Hsl, bytes_eqb_refl. reflexivity.
+      + destruct (Nat.ltb_spec q (length (utf8_encode c0))) as [Hr|Hr]; [reflexivity|].
+        destruct (bytes_eqb (utf8_encode c0) (slice h (q - length (utf8_encode c0)) q)) eqn:Eb; [|reflexivity].
+        exfalso. apply bytes_eqb_eq in Eb.
+        pose proof (suffix_unique (q - length (utf8_encode c0)) q0 q (utf8_encode c0) c HwE Hc Hql ltac:(lia) ltac:(lia) (eq_sym Eb) Hsl) as Heq.
+        apply Hne. rewrite <- HdE, Heq. reflexivity.
+  Qed.
+
+  Theorem text_enc_utf8 : text_enc u8 h okp.
+  Proof.
+    split; [intros q Hq; apply (bnd_len cs q Hq)|]. split.
+    - intros fwd q c Hq Hs. unfold next_if. destruct fwd.
+      + rewrite cnext_fwd, (mb_fwd_at q c Hq Hs). destruct (u8_next_right h q) as [e|[[c' q']|]]; cbn [bindR]; [exact I|reflexivity|reflexivity].
+      + rewrite cnext_bwd, (mb_bwd_at q c Hq Hs). destruct (u8_next_left h q) as [e|[[c' q']|]]; cbn [bindR]; [exact I|reflexivity|reflexivity].
+    - intros fwd q c e Hq Hs E. destruct text_ok_utf8 as (Hk1 & _). destruct fwd.
+      + rewrite (mb_fwd_at q c Hq Hs) in E. destruct (u8_next_right h q) as [e0|[[c' q']|]] eqn:En; try discriminate.
+        destruct (c =? c'); inversion E; subst. eapply (Hk1 true q c' e Hq). rewrite cnext_fwd. exact En.
+      + rewrite (mb_bwd_at q c Hq Hs) in E. destruct (u8_next_left h q) as [e0|[[c' q']|]] eqn:En; try discriminate.
+        destruct (c =? c'); inversion E; subst. eapply (Hk1 false q c' e Hq). rewrite cnext_bwd. exact En.
+  Qed.
 End Utf8Text.
